@@ -89,7 +89,7 @@ def groupUpdate {α} (fields : List Bytes) (init : α) (upd : α → Rec → α)
   match fields.mapM (get r) with
   | none => m
   | some vs =>
-    let k := Split.join [44] vs
+    let k := joinKey vs
     match m.get? k with
     | some g => m.put k (g.1, upd g.2 r)
     | none => m.put k (vs, upd init r)
